@@ -86,6 +86,13 @@ Theorem C09_fixed_point_example :
 Proof. exact fixed_point_example. Qed.
 Print Assumptions C09_fixed_point_example.
 
+(* floats: the decoder's normal form of a float64 (NaNs collapsed) encodes to the bytes of the float itself *)
+Theorem C09_enc_float_norm :
+  forall b,
+  enc_float (norm_f64 b) = enc_float b.
+Proof. exact enc_float_norm. Qed.
+Print Assumptions C09_enc_float_norm.
+
 (* bucket level: what UnprotectedHeader.MarshalCBOR emits is accepted by UnmarshalCBOR, and MarshalCBOR of the decoded bucket returns the same bytes *)
 Theorem C09_unprotected_cleared_fixed_point :
   forall l ub,
